@@ -572,13 +572,16 @@ def run(ctx, res):
     run_case(ctx, res, {"op": "subproc", "X": X, "Xq": Xq, "optimizer": "L-BFGS-B", "n_iter": 7, "jit": False,
                         "landmarks": gen_landmarks(rng, X)})
     run_case(ctx, res, {"op": "jit", "X": gen_X(rng, SHAPES[1]), "optimizer": "L-BFGS-B", "n_iter": 7})
+    # jit on/off for the iterative optimisers too (a traced closure may freeze per-iteration state such as the PRNG key)
+    run_case(ctx, res, {"op": "jit", "X": gen_X(rng, SHAPES[1]), "optimizer": "advi", "n_iter": 7})
+    run_case(ctx, res, {"op": "jit", "X": gen_X(rng, SHAPES[1]), "optimizer": "adam", "n_iter": 7})
     if not quick:
         run_case(ctx, res, {"op": "subproc", "X": X, "Xq": Xq, "optimizer": "adam", "n_iter": 7, "jit": False})
         run_case(ctx, res, {"op": "subproc", "X": X, "Xq": Xq, "optimizer": "advi", "n_iter": 7, "jit": False})
         run_case(ctx, res, {"op": "subproc", "X": X, "Xq": Xq, "optimizer": "L-BFGS-B", "n_iter": 7, "jit": True,
                             "n_landmarks": 0})
         for opt in ("adam", "advi"):
-            run_case(ctx, res, {"op": "jit", "X": gen_X(rng, SHAPES[1]), "optimizer": opt, "n_iter": 7})
+            run_case(ctx, res, {"op": "jit", "X": gen_X(rng, SHAPES[1]), "optimizer": opt, "n_iter": 50})
     # --- sampled part
     i = 0
     while time.time() < t_end:
